@@ -44,7 +44,7 @@ TECHNIQUE = ("Coq proof (totality incl. fuel, soundness, completeness of the eng
              "and valid_arg_found proved equal to the parser's counter and flag; round 5: value terminators of options and positionals; "
              "level correspondence) + extracted-model/implementation "
              "correspondence")
-LEVEL_TEXT = ("Machine-checked theorems (Coq 8.16, 76 pinned, all closed under the global context) about a function-by-function "
+LEVEL_TEXT = ("Machine-checked theorems (Coq 8.16, 77 pinned, all closed under the global context) about a function-by-function "
               "model of clap_complete::engine::complete: no panic site is reachable and no fuel runs out for any command, argv "
               "and index (build_full's fuel proved sufficient); in state ValueDone every option/subcommand candidate extends the "
               "word and names an option/alias/subcommand of the level reached by the shadow parse; under assert_app's uniqueness "
@@ -87,6 +87,10 @@ LEVEL_TEXT = ("Machine-checked theorems (Coq 8.16, 76 pinned, all closed under t
               "filled) both move the index / counter on; the classes item18 (`--opt v1..vj ;`, `-o v1..vj ;`, j below the maximum) and pitems18 "
               "(`;` alone, `v1..vk ;`) now contain terminators, so C18_state_agreement_item18, C18_state_agreement_positionals, C18_shadow_pline and "
               "the END-TO-END theorem C18_candidate_accepted_pline cover lines with terminators (non-vacuity: EngineTerm.TermLine); "
+              "C18_pending_option_dash_agreement: while an option is pending with ANY number of values a word lexed as an exact long key or a "
+              "non-empty short cluster is handled by both machines exactly as between arguments (level without hyphen-accepting arguments: "
+              "hyphen_free); item18 therefore also contains partially filled occurrences `--opt v1..vj <item>` (the minimum is judged by the parser's "
+              "flush: TooFewValues-class, never an unknown error; non-vacuity EngineTerm.PartialLine).  "
               "C18_terminator_before_after: the unrepaired loop stood at the wrong level behind `p --opt a ; sub` / `p a ; sub` and offered an "
               "option the parser rejects as unknown, the repaired one stands where the parser does.  "
               "The model is tied to clap_complete by running the extracted model "
@@ -95,8 +99,8 @@ LEVEL_TEXT = ("Machine-checked theorems (Coq 8.16, 76 pinned, all closed under t
 LEVEL_NOTE = ("Trusted: Coq kernel, extraction, OCaml driver, Rust harness, generators; Command::build blocks and assert_app "
               "shared with the parser model.  Differential/oracle only: the sort data themselves (clap's display-order counter, headings, rendered argument names as tags: "
               "stream `order` compares lists with the real crate); agreement of the shadow parse's "
-              "state with the parser's OUTSIDE the classes item18/pitems18/body18 (multi-valued options with fewer than max values "
-              "followed by another argument, a terminator that starts with `-` or follows the maximum of the range, hyphen values, require_equals, low-index multiples / allow_missing_positional, "
+              "state with the parser's OUTSIDE the classes item18/pitems18/body18 (partially filled multi-valued options on a level with "
+              "hyphen-accepting arguments, a terminator that starts with `-` or follows the maximum of the range, hyphen values, require_equals, low-index multiples / allow_missing_positional, "
               "a bounded multi-valued positional after its maximum, flag subcommands, inferred names, the generated help subtree); "
               "acceptance on whole lines by the REAL parser; custom/path completers not modelled.  Finding C18-value-terminator (the engine did "
               "not know Arg::value_terminator; C18_terminator_before_after, corpus accept.value-terminator.cases) is repaired by "
